@@ -210,6 +210,9 @@ def run_case(case, rep, record=True):
             rep.sample(dict(source=case["source"]["kind"], flat_n=int(h.env.action_space.n),
                             exploits=spec.exploits, privescs=list(spec.privescs), subnets=spec.subnets,
                             param_exhaustive=exhaustive, noop_vectors=noops))
+    except walk.SourceRejected as e:
+        if record:
+            rep.count(f"source-rejected({e.owner})")
     except Failure as f:
         fail(f, nops)
     except Exception as e:
